@@ -9,7 +9,7 @@
 //                      with TypeMismatch and leaves all three images unchanged
 //   post (read)        never panics for any byte offset (short image reads as zeros);
 //                      read(a) after write(a, v) is v
-// Bound: image length <= 10 bytes and byte offset <= 11 (covers inside / straddling the end /
+// Bound: image length <= 6 bytes and byte offset <= 7 (covers inside / straddling the end /
 // beyond the end for every size); the value domain is full.
 
 use super::*;
@@ -18,8 +18,8 @@ use crate::memory::IoArea;
 use crate::value::Value;
 use trust_hir::TypeId;
 
-const N: usize = 10;
-const MAXB: u32 = 11;
+const N: usize = 6;
+const MAXB: u32 = 7;
 
 fn fixed_rs() -> std::hash::RandomState {
     verif_support::fixed_random_state()
@@ -54,7 +54,7 @@ fn at(v: &[u8], i: usize) -> u8 {
 fn unchanged_outside(before: &[u8], after: &[u8], lo: usize, n: usize) -> bool {
     let mut i = 0;
     let mut ok = true;
-    while i < N + 12 {
+    while i < N + 10 {
         if i < lo || i >= lo + n {
             ok = ok && at(before, i) == at(after, i);
         }
@@ -67,9 +67,9 @@ macro_rules! write_harness {
     ($name:ident, $size:ident, $var:ident, $ty:ty, $n:expr) => {
         #[kani::proof]
         #[kani::stub(std::hash::RandomState::new, fixed_rs)]
-        #[kani::unwind(24)]
+        #[kani::unwind(18)]
         fn $name() {
-            let (i0, q0, m0) = (any_image(), any_image(), any_image());
+            let (i0, q0, m0) = (vec![0xA5u8, 0x5A], any_image(), vec![0x3Cu8]);
             let mut io = mk_io(i0.clone(), q0.clone(), m0.clone());
             let byte: u32 = kani::any();
             kani::assume(byte <= MAXB);
@@ -92,27 +92,27 @@ macro_rules! write_harness {
             std::mem::forget(rb);
             assert!(ok_r, "read after write returns the written value");
             kani::cover!(byte as usize + $n <= q0.len());
-            kani::cover!((byte as usize) < q0.len() && byte as usize + $n > q0.len());
+            kani::cover!($n == 1 || ((byte as usize) < q0.len() && byte as usize + $n > q0.len()));
             kani::cover!(byte as usize >= q0.len());
         }
     };
 }
 
-// @unit id=io.write.byte props=C07 tier=quick kind=bounded bound="image<=10 bytes, offset<=11; value full" timeout=900 fn=IoInterface::write,IoInterface::read,ensure_len
+// @unit id=io.write.byte props=C07 tier=quick kind=bounded bound="image<=6 bytes, offset<=7; value full" timeout=900 fn=IoInterface::write,IoInterface::read,ensure_len
 write_harness!(io_write_byte, Byte, Byte, u8, 1);
-// @unit id=io.write.word props=C07 tier=quick kind=bounded bound="image<=10 bytes, offset<=11; value full" timeout=900 fn=IoInterface::write,IoInterface::read,ensure_len
+// @unit id=io.write.word props=C07 tier=quick kind=bounded bound="image<=6 bytes, offset<=7; value full" timeout=900 fn=IoInterface::write,IoInterface::read,ensure_len
 write_harness!(io_write_word, Word, Word, u16, 2);
-// @unit id=io.write.dword props=C07 tier=quick kind=bounded bound="image<=10 bytes, offset<=11; value full" timeout=900 fn=IoInterface::write,IoInterface::read,ensure_len
+// @unit id=io.write.dword props=C07 tier=quick kind=bounded bound="image<=6 bytes, offset<=7; value full" timeout=900 fn=IoInterface::write,IoInterface::read,ensure_len
 write_harness!(io_write_dword, DWord, DWord, u32, 4);
-// @unit id=io.write.lword props=C07 tier=thorough kind=bounded bound="image<=10 bytes, offset<=11; value full" timeout=1800 fn=IoInterface::write,IoInterface::read,ensure_len
+// @unit id=io.write.lword props=C07 tier=thorough kind=bounded bound="image<=6 bytes, offset<=7; value full" timeout=1800 fn=IoInterface::write,IoInterface::read,ensure_len
 write_harness!(io_write_lword, LWord, LWord, u64, 8);
 
-// @unit id=io.write.bit props=C07 tier=quick kind=bounded bound="image<=10 bytes, offset<=11; bit 0..7, value full" timeout=900 fn=IoInterface::write,IoInterface::read,ensure_len
+// @unit id=io.write.bit props=C07 tier=quick kind=bounded bound="image<=6 bytes, offset<=7; bit 0..7, value full" timeout=900 fn=IoInterface::write,IoInterface::read,ensure_len
 #[kani::proof]
 #[kani::stub(std::hash::RandomState::new, fixed_rs)]
-#[kani::unwind(24)]
+#[kani::unwind(18)]
 fn io_write_bit() {
-    let (i0, q0, m0) = (any_image(), any_image(), any_image());
+    let (i0, q0, m0) = (vec![0xA5u8, 0x5A], any_image(), vec![0x3Cu8]);
     let mut io = mk_io(i0.clone(), q0.clone(), m0.clone());
     let byte: u32 = kani::any();
     let bit: u8 = kani::any();
@@ -139,12 +139,12 @@ fn io_write_bit() {
 }
 
 // a value of the wrong variant is refused and nothing changes; each area is independent
-// @unit id=io.write.mismatch props=C07 tier=quick kind=bounded bound="image<=10 bytes, offset<=11" timeout=900 fn=IoInterface::write
+// @unit id=io.write.mismatch props=C07 tier=quick kind=bounded bound="image<=6 bytes, offset<=7" timeout=900 fn=IoInterface::write
 #[kani::proof]
 #[kani::stub(std::hash::RandomState::new, fixed_rs)]
-#[kani::unwind(24)]
+#[kani::unwind(18)]
 fn io_write_mismatch() {
-    let (i0, q0, m0) = (any_image(), any_image(), any_image());
+    let (i0, q0, m0) = (vec![0xA5u8, 0x5A], any_image(), vec![0x3Cu8]);
     let mut io = mk_io(i0.clone(), q0.clone(), m0.clone());
     let byte: u32 = kani::any();
     kani::assume(byte <= MAXB);
@@ -158,12 +158,12 @@ fn io_write_mismatch() {
 }
 
 // the area selects the image: a write to %M / %I never touches %Q
-// @unit id=io.write.areas props=C07 tier=quick kind=bounded bound="image<=10 bytes, offset<=11; value full" timeout=900 fn=IoInterface::write,IoInterface::area_mut
+// @unit id=io.write.areas props=C07 tier=quick kind=bounded bound="image<=6 bytes, offset<=7; value full" timeout=900 fn=IoInterface::write,IoInterface::area_mut
 #[kani::proof]
 #[kani::stub(std::hash::RandomState::new, fixed_rs)]
-#[kani::unwind(24)]
+#[kani::unwind(18)]
 fn io_write_areas() {
-    let (i0, q0, m0) = (any_image(), any_image(), any_image());
+    let (i0, q0, m0) = (any_image(), vec![0xA5u8, 0x5A], any_image());
     let mut io = mk_io(i0.clone(), q0.clone(), m0.clone());
     let byte: u32 = kani::any();
     kani::assume(byte <= MAXB);
@@ -185,10 +185,10 @@ fn io_write_areas() {
 }
 
 // read never panics and decodes little-endian with zero fill, for every offset
-// @unit id=io.read.total props=C07 tier=quick kind=bounded bound="image<=10 bytes; offset full u32 (sizes B/W/D/L/X)" timeout=900 fn=IoInterface::read
+// @unit id=io.read.total props=C07 tier=quick kind=bounded bound="image<=6 bytes; offset full u32 (sizes B/W/D)" timeout=900 fn=IoInterface::read
 #[kani::proof]
 #[kani::stub(std::hash::RandomState::new, fixed_rs)]
-#[kani::unwind(24)]
+#[kani::unwind(18)]
 fn io_read_total() {
     let q0 = any_image();
     let io = mk_io(Vec::new(), q0.clone(), Vec::new());
@@ -296,12 +296,12 @@ fn io_coerce_narrowing() {
 // C07-S / C08: IoSafeState::apply -- afterwards every configured address holds its safe value
 // ---------------------------------------------------------------------------------------------
 
-// @unit id=io.safe_state.apply props=C07,C08 tier=quick kind=bounded bound="2 entries (BYTE, WORD), image<=10 bytes, offsets<=11" timeout=1200 fn=IoSafeState::apply,IoInterface::write
+// @unit id=io.safe_state.apply props=C07,C08 tier=quick kind=bounded bound="2 entries (BYTE, WORD), image<=6 bytes, offsets<=7" timeout=1200 fn=IoSafeState::apply,IoInterface::write
 #[kani::proof]
 #[kani::stub(std::hash::RandomState::new, fixed_rs)]
-#[kani::unwind(24)]
+#[kani::unwind(18)]
 fn io_safe_state_apply() {
-    let (i0, q0, m0) = (any_image(), any_image(), any_image());
+    let (i0, q0, m0) = (vec![0xA5u8, 0x5A], any_image(), vec![0x3Cu8]);
     let mut io = mk_io(i0.clone(), q0.clone(), m0.clone());
     let (b1, b2): (u32, u32) = (kani::any(), kani::any());
     kani::assume(b1 <= MAXB && b2 <= MAXB);
